@@ -79,7 +79,7 @@ type IndexChange[T Invertable] struct {
 // a delete operation. If both are not nil, it is an update operation.
 func (inv *IndexInverted[T]) InsertUpdateDelete(ctx context.Context, in <-chan IndexChange[T]) <-chan error {
 	errC := make(chan error, 1)
-	go func() {
+	utils.Go(ctx, func() {
 		defer close(errC)
 		inv.mu.Lock()
 		defer inv.mu.Unlock()
@@ -89,7 +89,7 @@ func (inv *IndexInverted[T]) InsertUpdateDelete(ctx context.Context, in <-chan I
 			return
 		}
 		errC <- inv.flush()
-	}()
+	})
 	return errC
 }
 
